@@ -1,8 +1,8 @@
-\* generated by lib/brokerlib.py mc_configs (kept here so that the model can be run by hand: tlc -config MC_core.cfg Broker.tla)
+\* generated by lib/brokerlib.py mc_configs (kept here so that the model can be run by hand: tlc -config MC_repoll.cfg Broker.tla)
 CONSTANTS
   Proxies = {"p1", "p2"}
-  Clients = {"c1", "c2"}
-  Answers = {"a1", "a2"}
+  Clients = {"c1"}
+  Answers = {"a1"}
   PT = 2
   CT = 2
   Loads = {0, 8}
@@ -12,14 +12,14 @@ CONSTANTS
   D2Fixed = TRUE
   PNatSet = {"unrestricted"}
   CNatSet = {"restricted"}
-  FpSet = {"default", "b2"}
-  UnknownTargets = TRUE
+  FpSet = {"default"}
+  UnknownTargets = FALSE
   Bridges = {"default", "b2"}
-  DupSids = FALSE
+  DupSids = TRUE
   Rejects = FALSE
   MaxDebug = 0
   None = None
 SPECIFICATION Spec
 VIEW view
 INVARIANTS TypeOK NoCrossWire OneOfferPerPoll OnePollPerOffer ClaimsDisjoint RelayURLRight UnlistedNeverMatched NATCompatible NoGhost GaugeIsIdmap HeapsInIdmap GaugeCountsHeaps
-PROPERTIES MatchRight 
+PROPERTIES MatchRight EveryRequestCompletes
